@@ -84,6 +84,8 @@ def _open_kind(mode, flags):
         return "open_append"
     if "x" in m or f & os.O_EXCL:
         return "open_excl"
+    if f & os.O_CREAT:
+        return "open_create"          # creates the file when absent, keeps existing contents
     return "open_rw"
 
 
@@ -193,7 +195,12 @@ def _open(file, mode="r", *a, **kw):
     st = _state
     if st["on"] and not st["suspend"] and isinstance(mode, str) and any(c in mode for c in "wax+"):
         real = _real_open(file, mode, *a, **kw)      # audit hook logs / faults the open itself
-        path = file if not isinstance(file, int) else "<fd:%d>" % file
+        path = file
+        if isinstance(file, int):          # os.fdopen / open(fd): name the file behind the descriptor
+            try:
+                path = os.readlink("/proc/self/fd/%d" % file)
+            except OSError:
+                path = "<fd:%d>" % file
         return _WFile(real, os.fspath(path) if not isinstance(path, str) else path)
     return _real_open(file, mode, *a, **kw)
 
